@@ -111,7 +111,9 @@ def make_pool(seed, n):
         if k == 'encode_method':
             idx = rnd.choice(idxs)
             ops.append({'op': k, 'index': idx,
-                        'vals': gf.assignment(rnd, refspec.METHODS[idx]),
+                        'vals': gf.assignment(
+                            rnd, refspec.METHODS[idx],
+                            magic=0.7 if len(ops) % 4 == 0 else 0),
                         'ch': gf.rchannel(rnd)})
         elif k == 'encode_header':
             ops.append({'op': k, 'props': gf.props_for_mask(
